@@ -322,14 +322,14 @@ def draw_op(rng, name, f, kind, curves, azimuths, fault_rate=0.0):
     if name == "sibling":
         return {"op": name, "do": rng.choice(["update", "write_read", "write_read"]), "az": rng.randrange(len(curves)),
                 "range": draw_range(rng, f), "kwargs": draw_kwargs(rng),
-                "path": "sim:/out/" + rng.choice(["s.csv", "sib.hv"]), "dmc": rng.choice(DISTS), "dfn": rng.choice(DISTS)}
+                "path": "/simfs/out/" + rng.choice(["s.csv", "sib.hv"]), "dmc": rng.choice(DISTS), "dfn": rng.choice(DISTS)}
     if name == "update_member":
         return {"op": name, "az": rng.randrange(len(curves)), "range": draw_range(rng, f),
                 "rtype": rng.choice(["tuple", "list"]), "kwargs": draw_kwargs(rng)}
     if name == "query":
         return {"op": name, "range": draw_range(rng, f), "kwargs": draw_kwargs(rng), "dist": rng.choice(DISTS)}
     if name == "write_read":
-        op = {"op": name, "path": "sim:/out/" + rng.choice(["a.csv", "b.csv", "res.hv"]),
+        op = {"op": name, "path": "/simfs/out/" + rng.choice(["a.csv", "b.csv", "res.hv"]),
               "dmc": rng.choice(DISTS), "dfn": rng.choice(DISTS)}
         if rng.random() < fault_rate:
             op["fault"] = {"kind": rng.choice(["enospc", "eio_write", "eio_read",
